@@ -133,3 +133,103 @@ Proof.
   intros cls ctx v Hp.
   destruct v as [| |b|s|n]; try discriminate Hp; eexists; (split; [vm_compute; reflexivity|]); split; vm_compute; reflexivity.
 Qed.
+
+(* ------------------------------------------------------------------------------------------
+   The repeat of the InResponseTo test at the head of AuthnResponse.get_subject (src2_subject_repeat_check: the if
+   statement between the attesting-entity test and the loop over the confirmations, cut out by
+   harness/c06.py:subject_slice and re-translated on every run).  Proved: for every receiver state (asynchop,
+   InResponseTo of the Response, outstanding set) and every list of confirmations - whatever Method each names, with
+   and without data / InResponseTo - it raises UnsolicitedResponse exactly when the model's method-blind test
+   (Model.one_assertion_m with every_method) refuses, and returns otherwise. *)
+Set Default Timeout 20.
+Definition enc_irt (d : option string) : pyval := match d with Some j => PStr j | None => PNone end.
+
+Definition method_uri (m : cm) : string :=
+  match m with
+  | Bearer => "urn:oasis:names:tc:SAML:2.0:cm:bearer"
+  | HokKey | HokBare => "urn:oasis:names:tc:SAML:2.0:cm:holder-of-key"
+  | SenderVouches => "urn:oasis:names:tc:SAML:2.0:cm:sender-vouches"
+  | OtherMethod => "urn:oasis:names:tc:SAML:2.0:cm:unheard-of"
+  end.
+
+Definition enc_data (s : scd) : pyval :=
+  match s with
+  | NoData => PNone
+  | Data d => PObj [("__class__", PStr "SubjectConfirmationData"); ("in_response_to", enc_irt d)]
+  end.
+
+Definition enc_conf (c : cm * scd) : pyval :=
+  PObj [("__class__", PStr "SubjectConfirmation"); ("method", PStr (method_uri (fst c)));
+        ("subject_confirmation_data", enc_data (snd c))].
+
+Definition enc_subject (l : list (cm * scd)) : pyval :=
+  PObj [("__class__", PStr "Subject"); ("subject_confirmation", PList (map enc_conf l))].
+
+Definition enc_dict (o : list (string * string)) : list (string * pyval) := map (fun kv => (fst kv, PStr (snd kv))) o.
+
+Definition enc_response (asyn : bool) (x : input) : pyval :=
+  PObj [("__class__", PStr "AuthnResponse"); ("asynchop", PBool asyn); ("in_response_to", enc_irt (irt x));
+        ("outstanding_queries", PObj (enc_dict (outstanding x)))].
+
+(* the outstanding set is a dict: its first key is not the marker of an encoded object *)
+Definition plain_dict (x : input) : bool := negb (is_obj (enc_dict (outstanding x))).
+
+Lemma assoc_lookup k o : assoc_py k (enc_dict o) = option_map PStr (lookup k o).
+Proof.
+  induction o as [|[k' v] r IH]; cbn [enc_dict map assoc_py lookup fst snd option_map]; [reflexivity|].
+  destruct (String.eqb k k'); [reflexivity|exact IH].
+Qed.
+
+Definition repeat_body (v_self : pyval) : list pyval -> pyval -> ctl2 := fun st_3 x_4 => match st_3 with [v__data] =>
+    (let v_subject_confirmation := x_4 in
+    (py_bindS (fun n_9 => (ExcS n_9 [v__data])) (p2_attr v_subject_confirmation "subject_confirmation_data") (fun v__data =>
+    (match p2_branch (p2_and (p2_is_not_none v__data) (p2_ne (p2_attr v__data "in_response_to") (p2_attr v_self "in_response_to"))) with
+    | BTrue => (py_bindS (fun n_7 => (ExcS n_7 [v__data])) (p2_fconcat [PStr "Unsolicited response: "; p2_str (p2_attr v_self "in_response_to")]) (fun _ =>
+    (ExcS "UnsolicitedResponse" [v__data])))
+    | BFalse => (NextS [v__data])
+    | BExc n_8 => (ExcS n_8 [v__data])
+    | BErr => (RetS PErr)
+    end))))
+   | _ => RetS PErr end.
+
+Lemma attr_irt asyn x : p2_attr (enc_response asyn x) "in_response_to" = enc_irt (irt x).
+Proof. unfold enc_response. destruct (irt x); reflexivity. Qed.
+
+Lemma repeat_loop asyn x i l : irt x = Some i -> forall st0, exists st1,
+  pyfor2 (map enc_conf l) [st0] (repeat_body (enc_response asyn x))
+  = if sc_all_match_m every_method i l then NextS [st1] else ExcS "UnsolicitedResponse" [st1].
+Proof.
+  intros Hi. induction l as [|[m s] r IH]; intros st0; cbn [map pyfor2 sc_all_match_m].
+  - exists st0. reflexivity.
+  - unfold repeat_body at 1. rewrite attr_irt, Hi. cbn [enc_irt].
+    change (p2_attr (enc_conf (m, s)) "subject_confirmation_data") with (enc_data s).
+    destruct s as [|d]; cbn [enc_data].
+    + cbn. apply IH.
+    + cbn [py_bindS p2_bind]. 
+      change (p2_attr (PObj [("__class__", PStr "SubjectConfirmationData"); ("in_response_to", enc_irt d)]) "in_response_to") with (enc_irt d).
+      cbn [every_method negb orb]. unfold answers.
+      destruct d as [j|]; cbn [enc_irt opt_eqb].
+      * change (p2_ne (PStr j) (PStr i)) with (PBool (negb (String.eqb j i))).
+        destruct (String.eqb j i); cbn; [apply IH|]. eexists. reflexivity.
+      * cbn. eexists. reflexivity.
+Qed.
+
+Theorem src_subject_repeat_check asyn x l : plain_dict x = true ->
+  src2_subject_repeat_check (enc_response asyn x) (enc_subject l)
+  = if asyn && match answered x with Some i => negb (sc_all_match_m every_method i l) | None => false end
+    then PExc "UnsolicitedResponse" else PNone.
+Proof.
+  intros Hd. unfold src2_subject_repeat_check. fold (repeat_body (enc_response asyn x)).
+  change (p2_attr (enc_response asyn x) "asynchop") with (PBool asyn).
+  change (p2_attr (enc_response asyn x) "outstanding_queries") with (PObj (enc_dict (outstanding x))).
+  rewrite attr_irt. destruct asyn; cbn [p2_and py_truthy andb]; [|reflexivity].
+  unfold plain_dict in Hd. apply negb_true_iff in Hd. unfold answered.
+  destruct (irt x) as [i|] eqn:Hi; cbn [enc_irt].
+  - unfold p2_in, s2. cbn [py_bind key_of]. rewrite Hd, assoc_lookup.
+    destruct (lookup i (outstanding x)) as [c|]; cbn [option_map p2_branch py_truthy]; [|reflexivity].
+    change (p2_attr (enc_subject l) "subject_confirmation") with (PList (map enc_conf l)).
+    cbn [p2_iter_check p2_iterable py_bind py_iter2].
+    destruct (repeat_loop true x i l Hi PErr) as [st1 E]. rewrite E.
+    destruct (sc_all_match_m every_method i l); reflexivity.
+  - unfold p2_in, s2. cbn [py_bind key_of]. rewrite Hd. reflexivity.
+Qed.
